@@ -528,6 +528,8 @@ class FnAnalysis:
                 self._assume(out, t.args[2], False)
         out.add(("true" if truth else "false", t))
         if t.op == "bin" and t.args[0] in ("Eq", "Ne"):
+            dual = Term("bin", "Ne" if t.args[0] == "Eq" else "Eq", t.args[1], t.args[2], t.args[3])
+            out.add(("false" if truth else "true", dual))      # a != b  <=>  !(a == b)
             dv = self._discr_cmp(t)
             if dv is not None:
                 base, names, k = dv
@@ -822,18 +824,28 @@ class FnAnalysis:
             if cur is not None and cur != truthv:
                 return None
             return self.assume_bool(facts, d, truthv)
-        # integer switch
+        # integer switch (the boolean forms of the same knowledge let a match on constants be summarised as a case split)
+        eqt = lambda w: T.bin("Eq", d, T.const(dty, w), dty) if dty in INT_BITS else None
         if taken:
             for f in facts:
                 if f[0] == "eq" and f[1] is d and f[2] != v:
                     return None
                 if f[0] == "ne" and f[1] is d and f[2] == v:
                     return None
-            return facts | {("eq", d, v)}
+            extra = {("eq", d, v)}
+            if eqt(v) is not None and eqt(v).op != "const":
+                extra.add(("true", eqt(v)))
+                for w in listed:
+                    if w != v:
+                        extra.add(("false", eqt(w)))
+            return facts | extra
         else:
             if ("eq", d, v) in facts:
                 return None
-            return facts | {("ne", d, v)}
+            extra = {("ne", d, v)}
+            if eqt(v) is not None and eqt(v).op != "const":
+                extra.add(("false", eqt(v)))
+            return facts | extra
 
     def _select_phi(self, facts, base, vname):
         """Correlated branches: `base` is a merge of values of which exactly one can be variant `vname`; learning that
@@ -1209,7 +1221,8 @@ class Program:
     def known_name(self, lf):
         """is this in-crate function part of the vocabulary the rules speak in (then it is kept as a named call)?"""
         from .vocab import is_known
-        return is_known(lf["qual"])
+        # the crate's public interface keeps its names too: only private helpers are dissolved into their case analysis
+        return is_known(lf["qual"]) or bool(lf.get("reachable_pub")) and lf.get("kind") != "Closure"
 
     def closed_tree(self, lf, items=None):
         """The value a pure in-crate function returns, as a closed term over its parameters in which the function's
@@ -1498,8 +1511,9 @@ class Program:
                     return T.agg("adt", "result::Result", 1, "Err", [self.convert_err(an, st, callee, T.payload(inner, "Err"))])
                 if g0.startswith("option::Option"):
                     return T.agg("adt", "option::Option", 0, "None", [])
-        if name == "clone::Clone::clone" and nq.startswith("clone::impls::"):
-            return self._val(an, st, args[0])
+        if name == "clone::Clone::clone" and (nq.startswith("clone::impls::") or nq.startswith("<ops::Range") or nq.startswith("<option::Option")
+                                               or nq.startswith("<result::Result") or nq.startswith("<(")):
+            return self._val(an, st, args[0])     # structural copy: the clone is the same value
         if name in ("convert::Into::into", "convert::From::from") and generics and len(generics) >= 2 and generics[0] == generics[1]:
             return args[0]
         if name in ("convert::Into::into", "convert::From::from") and len(generics) >= 2 and generics[0] in INT_BITS and generics[1] in INT_BITS:
